@@ -157,6 +157,8 @@ def ka (t : Nat) : Poll := { t := t, kind := Kind.keepalive }
 def upd (t : Nat) : Poll := { t := t, kind := Kind.update }
 
 /-- the literal kinds used in the examples are the rows of the generated table -/
+example : Kind.ofName "nop" = some Kind.nop ∧ Kind.ofName "keepalive" = some Kind.keepalive ∧
+    Kind.ofName "update" = some Kind.update ∧ Kind.ofName "no-such-kind" = none := by decide
 example : Kind.nop.real = false ∧ Kind.keepalive.real = true ∧ Kind.keepalive.isKeepalive = true ∧
     Kind.update.real = true ∧ Kind.update.isKeepalive = false := by decide
 
